@@ -104,7 +104,7 @@ Definition report_bits (ev : event) (wkeys : list string) (pkeys : list (string 
            (prev now : list ascii) (ch pr : list string) (us : option (list string)) : Z :=
   let n := List.length wkeys in
   let seg (v : list ascii) (i : nat) := firstn n (skipn (i * n) v) in
-  let pk := map (fun nk => ns_name (fst nk) (snd nk)) pkeys in
+  let pk := map (fun nk => get_ns_name (fst nk) (snd nk)) pkeys in
   let b_pol := flips_reported "0" wkeys (seg prev 0%nat) (seg now 0%nat) ch pr in
   let b_log := flips_reported "1" wkeys (seg prev 1%nat) (seg now 1%nat) ch pr in
   let b_pr := flips_reported "5" pk (skipn (3 * n) prev) (skipn (3 * n) now) ch pr in
@@ -131,7 +131,8 @@ Fixpoint s_run (enabled : bool) (ob : objects) (prev : list ascii) (wkeys : list
       let a := list_ascii_of_string ans in
       let b_ans :=
         if ascii_list_eqb a (spec_answers acceptable enabled ob' wkeys pkeys) then 0
-        else if ascii_list_eqb a (spec_answers acceptable_as_coded enabled ob' wkeys pkeys) then 1 else 4 in
+        else if ascii_list_eqb a (spec_answers acceptable_as_coded enabled ob' wkeys pkeys) && negb (f21_freeb ob')
+             then 1 else 4 in
       Z.lor (Z.lor b_ans (report_bits ev wkeys pkeys prev a ch pr us))
             (s_run enabled ob' a wkeys pkeys evs' obs')
   | _, _ => 4
@@ -144,7 +145,7 @@ Definition ev_default : event := EvDelPolicy "".
 Definition pick (evs : list event) (idx : list nat) : list event := map (fun i => nth i evs ev_default) idx.
 
 (* one row per case:
-   [id; model agrees; spec holds; nontrivial; spec failure bits; #runs;
+   [id; model agrees; spec holds; nontrivial; spec failure bits; #runs; K1 holds; F21-free;
     then, over all steps of the first run, how often each answer class was observed:
     duplicate, missing, bad timestamp, failed validation (WAF); invalid, policy missing, policy
     invalid, log conf missing, log conf invalid (DoS); usable] *)
@@ -162,6 +163,9 @@ Definition c19_case (id : Z) (enabled : bool) (wkeys : list string) (pkeys : lis
   let cnt (c : ascii) := Z.of_nat (List.length (filter (Ascii.eqb c) all0)) in
   [id; if agree then 1 else 0; if bits =? 0 then 1 else 0; if nontrivial then 1 else 0; bits;
    Z.of_nat (List.length runs);
+   (* hypotheses of the theorems on this case: K1 along every run; F21-freeness of the final objects *)
+   (if forallb (fun r => K1_histb (pick evs (fst r))) runs then 1 else 0);
+   (if f21_freeb (final_objects evs) then 1 else 0);
    cnt "D"%char; cnt "M"%char; cnt "T"%char; cnt "F"%char;
    cnt "I"%char; cnt "p"%char; cnt "P"%char; cnt "l"%char; cnt "L"%char; cnt "0"%char].
 
